@@ -67,6 +67,14 @@ def ipv6_special_forms():
             bytes.fromhex("20010db8") + b"\0" * 11 + b"\1"]
 
 
+def text_special_forms():
+    """texts a library might want to "canonicalise" (absolute FQDN, case, blanks, NULs, BOM, line ends, IDNA, literals):
+    a value is the octets it was given / the wire carries, nothing else"""
+    return [b"host.example.com.", b".", b"a.", b".a", b"A.B.Example", b" host", b"host ", b"host\0", b"\0", b"\0\0\0\0", b"h\0st", "\ufeffhost".encode(),
+            b"host\n", b"host\r\n", b"\thost", b"xn--bcher-kva.example", b"*.example", b"host..example", b"-host", b"123", b"1.2.3.4", b"[::1]",
+            b"aaa://host:3868;transport=tcp", b"AAA://HOST", b"aaas://h;protocol=diameter", b"a" * 63 + b".", b"%41", b"a/../b", b"host:3868", b"\"q\""]
+
+
 def gen_leaf(r, kind=None, big=False):
     k = kind or r.choice(LEAF_KINDS)
     if k in ("a4", "ip4"):
@@ -169,6 +177,13 @@ def synthetic_dict(r, dictid, via_xml=False):
             dict(code=3301, vendor=10415, name=b"Shared-Name", ty="u32", m=True), dict(code=3300, vendor=None, name=b"Shared-Name", ty="utf", m=False),
             # a key whose type was known and is re-declared with a type name the library does not recognise: nothing may decode under it
             dict(code=3400, vendor=None, name=b"Was-Known", ty="u32", m=False), dict(code=3400, vendor=None, name=b"Was-Known", ty="unk", m=False)]
+    # codes the RFC 6733 base protocol (and RFC 4006) assign, declared here with OTHER types than the RFCs give them: an AVP
+    # is typed by the dictionary of its message, not by what the code usually means
+    retype = {"utf": "u32", "id": "oct", "u32": "utf", "oct": "u64", "time": "u32", "addr": "utf", "grp": "u32", "en": "i32"}
+    usual = {1: "utf", 25: "oct", 27: "u32", 33: "oct", 44: "oct", 50: "utf", 55: "time", 85: "u32", 257: "addr", 258: "u32", 259: "u32", 260: "grp",
+             263: "utf", 264: "id", 265: "u32", 266: "u32", 268: "u32", 269: "utf", 278: "u32", 281: "utf", 282: "id", 283: "id", 293: "id", 296: "id",
+             299: "u32", 415: "u32", 416: "en", 461: "utf"}
+    seq += [dict(code=c, vendor=None, name=f"B-{c}".encode(), ty=retype[t], m=bool(c & 1)) for c, t in sorted(usual.items())]
     defs = defs + seq
     g.defs = defs
     if via_xml:
